@@ -150,7 +150,10 @@ def real_run(case):
             elif kind == "steady":
                 sim.simulate_to_steady_state()
             elif kind == "par":
-                sim.update_parameters({k: float(F(v)) for k, v in op[1]})
+                if len(op[1]) == 1:
+                    sim.update_parameter(op[1][0][0], float(F(op[1][0][1])))
+                else:
+                    sim.update_parameters({k: float(F(v)) for k, v in op[1]})
             elif kind == "var":
                 if len(op[1]) == 1:
                     sim.update_variable(op[1][0][0], float(F(op[1][0][1])))
